@@ -43,6 +43,14 @@ DEGENERATE_KINDS = ('prime', 'prime_square', 'even_semiprime', 'even_many', 'pow
 def degenerate(mat, kind, nbits):
   """A modulus >= 2^63 of a degenerate class, about nbits long."""
   nbits = max(64, nbits)
+  while True:
+    n = _degenerate(mat, kind, nbits)
+    if n >= 2**63:
+      return n
+    nbits += 1
+
+
+def _degenerate(mat, kind, nbits):
   if kind == 'prime':
     return mat.prime(nbits)
   if kind == 'prime_square':
